@@ -4,7 +4,7 @@
     [seed] any seed, [chunk] any positive literal chunk size. *)
 From Coq Require Import ZArith List Bool FMapPositive.
 From RV Require Import Model.Bytes Model.Md4 Model.Checksum Model.Delta Model.Sender
-     Proofs.BytesProofs Proofs.DeltaProofs Proofs.TileProofs Proofs.SenderProofs Gen.Consts.
+     Proofs.BytesProofs Proofs.DeltaProofs Proofs.TileProofs Proofs.SenderProofs Proofs.GeneratorProofs Proofs.TileRecv Gen.Consts.
 Import ListNotations.
 Open Scope Z_scope.
 
@@ -114,6 +114,19 @@ Theorem all_block_references_denote_the_basis :
     denote basis h (map (fun j => Ref (Z.of_nat j)) (seq 0 (Z.to_nat (h_count h)))) = Some basis.
 Proof. exact denote_all_refs. Qed.
 
+(** End to end on the receiver: a transmission that references every block of
+    the generator's signature in order, followed by the whole-file sum of the
+    basis, makes receiveData commit exactly the basis (any strong hash with
+    16-byte output, any seed, any basis below 2^40 bytes). *)
+Theorem whole_signature_reproduces_the_basis :
+  forall (H : list Z -> list Z) seed basis rest,
+    (forall x, lenZ (H x) = 16) -> lenZ basis < 1099511627776 ->
+    let h := sum_sizes_sqroot (lenZ basis) in
+    receive_data H seed (Some basis)
+      (enc_head h ++ enc_tokens (map (fun j => Ref (Z.of_nat j)) (seq 0 (Z.to_nat (h_count h)))) ++
+       le32 0 ++ filesum H seed basis ++ rest) = (Commit basis, rest).
+Proof. exact all_refs_commit. Qed.
+
 (** Non-vacuity: 1401 bytes give two full blocks of 700 and a remainder of 1;
     490000 bytes (sqrt = 700) give exactly 700 full blocks. *)
 Example tile_example :
@@ -150,3 +163,4 @@ Print Assumptions tag_table_exact.
 Print Assumptions signature_blocks_tile_the_basis.
 Print Assumptions signature_blocks_are_readable.
 Print Assumptions all_block_references_denote_the_basis.
+Print Assumptions whole_signature_reproduces_the_basis.
